@@ -457,3 +457,16 @@ def conform(f: ca.Function, prog: Prog, flat, max_ulp=4.0):
             if d > worst:
                 worst = d
     return worst <= max_ulp, worst, outs_ca, sig
+
+
+def densify_out(f: ca.Function, k: int, nz, zero=0):
+    """dense column-major list of output k from its nonzeros (structural zeros filled with `zero`)"""
+    sp = f.sparsity_out(k)
+    n = sp.size1() * sp.size2()
+    if sp.nnz() == n:
+        return list(nz)
+    out = [zero] * n
+    rows, cols = sp.get_triplet()
+    for v, r, c in zip(nz, rows, cols):
+        out[c * sp.size1() + r] = v
+    return out
